@@ -63,6 +63,9 @@ fn one(s: &mut Session, rng: &mut Rng, kind: &str, addr: String, tail: &[u8], re
 }
 
 pub fn generate(s: &mut Session, tier: &str, rng: &mut Rng) {
+    // the address a datagram is sent to is the one it arrives at: for vmess the target travels in the stream's request
+    // header, one stream per (sender, target) - several targets from one application, through the real client and server
+    crate::c02::e2e_cases_for(s, "quick", rng, Some(("vmess", "tcp")));
     let ports = [0u16, 1, 79, 80, 443, 255, 256, 0x1234, 65534, 65535];
     let thorough = tier == "thorough";
     // every domain length 0..=1024
